@@ -35,13 +35,10 @@ import FqModel.Reasm
          `seq-wrap`      every failure lies in a direction whose sequence numbers cross 2^32 and whose data segments do
                          not arrive exactly once and in order (gopacket's Sequence.Difference is off by one across
                          the wrap); for such a direction the interface check on the recorded calls is skipped too.
-         `tcp-header-cut` the only other thing wrong is the connection(s) with ports 0 that the fq model predicts for
-                         records cut by the snap length inside the TCP header (`tcpHeaderCut`), and with them expected
-                         fq's report satisfies the predicate.
        A T packet may carry a 7th field `x<k>` / `xL`: the record was cut by the snap length (k bytes of the IP packet
        captured / cut inside the link header); both worlds see of it what `visiblePayload` says.
        Fixed in /repo and no longer excused: defrag-length (8dc84a5a), fsm-reorder (1ef5f83b), pcapng-shb-section and
-       pcapng-section-length (501642c1).
+       pcapng-section-length (501642c1), tcp-header-cut (e2e770fa).
     6. `linktable`: the dispatch table dumped from the binary under test must equal `linkToDecodeFn`.
 -/
 open FqModel FqModel.Proto FqModel.Reasm
@@ -222,11 +219,6 @@ structure Ev where
   syn : Bool
   ack : Bool
   fin : Bool
-  phantom : Bool := false    -- a segment whose TCP header was cut by the snap length, as fq's packet() passes it on
-
-/-- connection ids of phantom connections (ports 0): 1000 + index of the first connection of the case between
-    the same two addresses -/
-def phantomBase : Nat := 1000
 
 structure Done where
   src : Bytes
@@ -275,7 +267,7 @@ def tcpOf (conns : Array CConn) (src dst : Bytes) (p : Bytes) : Option Ev := do
     else none
   let (c, d) ← idx
   let isn := sel conns[c]!.isn d
-  some ⟨c, d, (seq + 4294967296 - isn) % 4294967296, data, fl / 2 % 2 == 1, fl / 16 % 2 == 1, fl % 2 == 1, false⟩
+  some ⟨c, d, (seq + 4294967296 - isn) % 4294967296, data, fl / 2 % 2 == 1, fl / 16 % 2 == 1, fl % 2 == 1⟩
 
 abbrev FragKey := Bytes × Bytes × Nat
 
@@ -308,21 +300,10 @@ def replay (conns : Array CConn) (pkts : List FPkt) : Replay := Id.run do
       match vis with
       | some m =>
         let data := if m == 0 then [] else ((sel cc.data d).drop (so - 1)).take m
-        let ev : Ev := ⟨c, d, so, data, syn, ack, fin, false⟩
+        let ev : Ev := ⟨c, d, so, data, syn, ack, fin⟩
         r := { r with evsRef := r.evsRef.push ev }
         if served then r := { r with evsFq := r.evsFq.push ev }
-      | none =>
-        -- fq model: a cut inside the TCP header still reaches the assembler as a segment without ports
-        let inTcp := match cut with
-          | some (some k) => tcpHeaderCut ipHdr k
-          | _ => false
-        if inTcp && served then
-          let j := ((List.range conns.size).find? fun i =>
-            let o := conns[i]!
-            (o.ip.1 == cc.ip.1 && o.ip.2 == cc.ip.2) || (o.ip.1 == cc.ip.2 && o.ip.2 == cc.ip.1)).getD c
-          let o := conns[j]!
-          let pd := if sel cc.ip d == o.ip.1 then 0 else 1
-          r := { r with evsFq := r.evsFq.push ⟨phantomBase + j, pd, 0, [], false, false, false, true⟩ }
+      | none => pure ()    -- `reachesAssembler` = false: nothing of the segment reaches the assembler (either world)
     | .f c d id foff mf body =>
       let cc := conns[c]!
       let src := sel cc.ip d
@@ -535,13 +516,8 @@ def connOrder (evs : Array Ev) : Array (Nat × Nat) :=
 
 def modelConns (k : Case) (order : Array (Nat × Nat)) (calls : Array Call) : Option (Array (Conn UInt8)) := do
   let mut conns : Array (Conn UInt8) := order.map fun (c, d) =>
-    if c ≥ phantomBase then
-      -- no transport endpoints: `New` takes port 0 (flowsdecoder.go:114-125)
-      let cc := k.conns[c - phantomBase]!
-      newConn (sel cc.ip d) (sel cc.ip (1 - d)) [] []
-    else
-      let cc := k.conns[c]!
-      newConn (sel cc.ip d) (sel cc.ip (1 - d)) (u16 (sel cc.port d)) (u16 (sel cc.port (1 - d)))
+    let cc := k.conns[c]!
+    newConn (sel cc.ip d) (sel cc.ip (1 - d)) (u16 (sel cc.port d)) (u16 (sel cc.port (1 - d)))
   for cl in calls do
     if cl.conn ≥ conns.size then none
     conns := conns.modify cl.conn fun t => reassembledSG t ⟨cl.s2c, cl.start, cl.stop, cl.skip, cl.data⟩
@@ -567,34 +543,20 @@ def interfaceOK (sent : Bytes) (base : Nat) (chunks : List Call) : Bool :=
 structure Findings where
   propfail : List String := []
   wrapOnly : Bool := true      -- every failure so far lies in a direction of class seq-wrap
-  softOnly : Bool := true      -- every failure so far is of class seq-wrap or is a phantom connection (tcp-header-cut)
   diverge : List String := []
 
 def Findings.fail (f : Findings) (why : String) (inWrap : Bool) : Findings :=
-  { f with propfail := f.propfail ++ [why], wrapOnly := f.wrapOnly && inWrap, softOnly := f.softOnly && inWrap }
-
-def Findings.failPhantom (f : Findings) (why : String) : Findings :=
-  { f with propfail := f.propfail ++ [why], wrapOnly := false }
+  { f with propfail := f.propfail ++ [why], wrapOnly := f.wrapOnly && inWrap }
 
 def Findings.div (f : Findings) (why : String) : Findings := { f with diverge := f.diverge ++ [why] }
 
 /-- the property predicate: fq's report against the SENT data and the reference computed from `evs` -/
-def predicate (k : Case) (o : ObsSec) (evs : Array Ev) (dones : List Done) (order : Array (Nat × Nat))
-    (phantoms : List (Nat × Nat)) : Findings := Id.run do
+def predicate (k : Case) (o : ObsSec) (evs : Array Ev) (dones : List Done) (order : Array (Nat × Nat)) : Findings := Id.run do
   let mut f : Findings := {}
-  -- a reported connection with both ports 0 between the addresses of a phantom of the fq model: expected when
-  -- `order` (fq world) has it, otherwise a connection that never existed (class tcp-header-cut)
-  let isPhantom := fun (oc os : ODir) => oc.port == 0 && os.port == 0 && phantoms.any fun (c, d) =>
-    let cc := k.conns[c - phantomBase]!
-    ipString (sel cc.ip d) == oc.ip && ipString (sel cc.ip (1 - d)) == os.ip
-  let nPhantomObs := (o.conns.toList.filter fun (oc, os) => isPhantom oc os).length
-  let nPhantomOrder := (order.toList.filter fun p => p.1 ≥ phantomBase).length
-  if o.conns.size - nPhantomObs != order.size - nPhantomOrder then
-    f := f.fail s!"connections reported {o.conns.size - nPhantomObs} captured {order.size - nPhantomOrder}" false
-  if nPhantomObs != nPhantomOrder then
-    f := f.failPhantom s!"{nPhantomObs} connection(s) with ports 0 reported: a segment whose TCP header was cut by the snap length became a connection"
+  if o.conns.size != order.size then
+    f := f.fail s!"connections reported {o.conns.size} captured {order.size}" false
   let mut seen : List Nat := []
-  for (oc, os) in o.conns.toList.filter (fun (oc, os) => !isPhantom oc os) do
+  for (oc, os) in o.conns do
     -- attribution: the reported endpoints are the two endpoints of exactly one connection of the case
     let hit := (List.range k.conns.size).findSome? fun i =>
       let c := k.conns[i]!
@@ -644,13 +606,12 @@ structure SecResult where
 /-- one flows section: fq's report `o` for it and the calls recorded for it against the section's packets -/
 def stepSection (k : Case) (pkts : List FPkt) (o : ObsSec) (calls : Array Call) : SecResult := Id.run do
   let r := replay k.conns pkts
-  let phantoms := (connOrder r.evsFq).toList.filter fun p => p.1 ≥ phantomBase
-  let refF := predicate k o r.evsRef r.done.toList (connOrder r.evsRef) phantoms
+  let refF := predicate k o r.evsRef r.done.toList (connOrder r.evsRef)
   let dropped := (r.done.toList.filter (fun d => !d.accepted)).length
   -- the same predicate in the world of the fq model (segments rejected by Accept, packets decoded with the wrong
   -- link type are lost)
   let (evsFq, fsmRejected) := fsmFilter r.evsFq
-  let fqF := predicate k o evsFq (r.done.toList.filter (·.accepted)) (connOrder r.evsFq) phantoms
+  let fqF := predicate k o evsFq (r.done.toList.filter (·.accepted)) (connOrder r.evsFq)
   -- model of fq's own part on the recorded calls
   let mut dv : List String := fqF.diverge
   let order := connOrder r.evsFq
@@ -667,9 +628,6 @@ def stepSection (k : Case) (pkts : List FPkt) (o : ObsSec) (calls : Array Call) 
     -- interface assumption on the recorded calls, per direction
     for i in [0:order.size] do
       let (ci, first) := order[i]!
-      if ci ≥ phantomBase then
-        if calls.any (fun c => c.conn == i) then dv := dv ++ [s!"calls recorded for the phantom connection {i}"]
-        continue
       for s2c in [false, true] do
         let d := if s2c then 1 - first else first
         let rf := dirRef k evsFq ci d
@@ -690,7 +648,7 @@ def stepSection (k : Case) (pkts : List FPkt) (o : ObsSec) (calls : Array Call) 
   return ⟨refF, fqF, dv, dropped, fsmRejected, r.misdecoded⟩
 
 def Findings.merge (a b : Findings) : Findings :=
-  ⟨a.propfail ++ b.propfail, a.wrapOnly && b.wrapOnly, a.softOnly && b.softOnly, a.diverge ++ b.diverge⟩
+  ⟨a.propfail ++ b.propfail, a.wrapOnly && b.wrapOnly, a.diverge ++ b.diverge⟩
 
 def stepCap (k : Case) (o : Obs) : String := Id.run do
   let secs := k.fqSections
@@ -725,10 +683,6 @@ def stepCap (k : Case) (o : Obs) : String := Id.run do
   -- defrag-length are fixed in /repo: what they produced is a PROPFAIL again.
   if refF.wrapOnly then
     return s!"KNOWN seq-wrap {refF.propfail.head!}{suffix}"
-  -- known finding tcp-header-cut: besides seq-wrap failures the only thing wrong is the phantom connection(s) the fq
-  -- model predicts, and with them expected the report is right
-  if refF.softOnly && fqF.wrapOnly then
-    return s!"KNOWN tcp-header-cut {(refF.propfail.find? (fun w => (w.splitOn "ports 0").length > 1)).getD refF.propfail.head!}{suffix}"
   return s!"PROPFAIL {refF.propfail.head!}{suffix}"
 
 def stepTable (obs : String) : String :=
